@@ -148,6 +148,9 @@ class Defs:
             if isinstance(st, ast.If) and not st.orelse and len([x for x in st.body if not is_log_call(x)]) == 1 and isinstance([x for x in st.body if not is_log_call(x)][0], ast.Continue):
                 conds.append(ast.UnaryOp(ast.Not(), clone(st.test)))
                 continue
+            if isinstance(st, ast.If) and not st.orelse and [x for x in st.body if not is_log_call(x)] and isinstance([x for x in st.body if not is_log_call(x)][-1], ast.Raise):
+                # a guard that refuses the whole operation: the comprehension describes the executions that complete
+                continue
             if isinstance(st, ast.If) and not st.orelse and not body:
                 conds.append(clone(st.test))
                 body = list(st.body)
